@@ -15,6 +15,7 @@ def run(ctx):
     if not exe:
         return
     rng = ctx.rng
+    S.IGNORE_UNOWNED[0] = True
     thorough = ctx.tier == "thorough"
     stats = S.new_stats()
     batches = []
@@ -34,7 +35,7 @@ def run(ctx):
         batches.append(cases[i:i + 2000])
     all_cases = []
     for b in batches:
-        problems = S.run_batch(exe, drv, b, stats)
+        problems = S.run_batch(exe, drv, b, stats, ignore_unowned=True)
         S.report(ctx, exe, drv, b, problems, ORACLES, crash_is_mine=False)
         all_cases += b
         if len(ctx.corr_broken) > 6:
